@@ -2799,6 +2799,24 @@ def _clip_power_of_two(x_abs,
   return x_clipped
 
 
+def _po2_max_value_to_str(max_value):
+  """Text of the max_value argument of quantized_po2 and quantized_relu_po2.
+
+  Args:
+    max_value: the maximum value allowed, or None.
+
+  Returns:
+    "None", the integer text for an integral value (4.0 prints as "4"), or the
+    exact text otherwise (0.5 prints as "0.5").
+  """
+
+  if max_value is None:
+    return "None"
+  if max_value == int(max_value):
+    return str(int(max_value))
+  return str(max_value)
+
+
 def _need_exponent_sign_bit_check(max_value):
   """Checks whether the sign bit of exponent is needed.
 
@@ -2908,7 +2926,7 @@ class quantized_po2(base_quantizer.BaseQuantizer):  # pylint: disable=invalid-na
   def __str__(self):
     flags = [str(self.bits)]
     if self.max_value is not None or self.use_stochastic_rounding:
-      flags.append(str(int(self.max_value)))
+      flags.append(_po2_max_value_to_str(self.max_value))
     if self.use_stochastic_rounding:
       flags.append(str(int(self.use_stochastic_rounding)))
     if self.quadratic_approximation:
@@ -3054,7 +3072,7 @@ class quantized_relu_po2(base_quantizer.BaseQuantizer):  # pylint: disable=inval
   def __str__(self):
     flags = [str(self.bits)]
     if self.max_value is not None or self.use_stochastic_rounding:
-      flags.append(str(int(self.max_value)))
+      flags.append(_po2_max_value_to_str(self.max_value))
     if self.negative_slope:
       flags.append(str(self.negative_slope))
     if self.use_stochastic_rounding:
